@@ -298,10 +298,14 @@ def cli_report(src, files):
     saved = sys.argv
     sys.argv = ["x816", "main.s", "-o", "c17.out", "-D", "C17DEBUG=1", "C17LEVEL=0x20"]
     code = None
+    import contextlib
+    import io
+    printed = io.StringIO()   # whatever the command line prints counts as part of its report too
     try:
         try:
             from a816 import cli
-            cli.cli_main()
+            with contextlib.redirect_stdout(printed), contextlib.redirect_stderr(printed):
+                cli.cli_main()
             code = 0
         except SystemExit as e:
             code = e.code if e.code is not None else 0
@@ -318,7 +322,7 @@ def cli_report(src, files):
     out = _Out()
     if code == 0:
         return out, None
-    return out, "\n".join(records)
+    return out, "\n".join(records + [printed.getvalue()])
 
 
 def check_report(text, fname, line_no, line_text, col, viol, ctx, fault):
